@@ -1,7 +1,7 @@
 SPECIFICATION Spec
 CONSTANTS
   MaxN = 6
-  Vals = {0,1,2,3,4}
+  Vals = {0,1,2}
   Variant = "code"
   WriteAll = FALSE
 VIEW View
